@@ -52,6 +52,12 @@ def configs(ss):
                                                dur=5, dt=0.5, rand_seed=seed, verbose=0)
     cf['two-diseases-vaccine'] = lambda seed, bscale=1.0: ss.Sim(n_agents=80, diseases=[ss.SIR(beta=0.1 * bscale, init_prev=0.1), ss.SIS(beta=0.08 * bscale, init_prev=0.1)], networks=ss.RandomNet(n_contacts=4),
                                                     interventions=ss.routine_vx(start_year=2001, prob=0.5, product=ss.sir_vaccine(efficacy=0.5)), dur=5, rand_seed=seed, verbose=0)
+    import networkx as nx
+    cf['single-dense-net-one-direction'] = lambda seed, bscale=1.0: ss.Sim(n_agents=30, diseases=ss.SIR(beta=dict(static=[0.9 * bscale, 0]), init_prev=0.4),
+                                                 networks=ss.StaticNet(graph=nx.complete_graph(30)), dur=3, rand_seed=seed, verbose=0)
+    from harness.probes import ZeroTransOfInfected
+    cf['mixingpool-zero-rel-trans'] = lambda seed, bscale=1.0: ss.Sim(n_agents=80, diseases=ss.SIS(init_prev=0.3), networks=ss.MixingPool(beta=ss.beta(0.9 * bscale), contacts=ss.poisson(3)),
+                                          connectors=ZeroTransOfInfected(name='zerotrans'), dur=4, rand_seed=seed, verbose=0)
     cf['mixingpool'] = lambda seed, bscale=1.0: ss.Sim(n_agents=80, diseases=ss.SIS(init_prev=0.1), networks=ss.MixingPool(beta=ss.beta(0.3 * bscale), contacts=ss.poisson(2)),
                                           demographics=ss.Deaths(death_rate=20), dur=5, rand_seed=seed, verbose=0)
     return cf
@@ -87,6 +93,7 @@ def admissibility(ctx, name, seed, rec):
 def run_level(ctx, ss):
     rng = ctx.rng
     cases, metas = [], []
+    pool_terms, pool_meta = [], []
     for name, mk in configs(ss).items():
         for rep in range(ctx.n(1, 6)):
             seed = rng.randrange(1, 10**4)
@@ -125,8 +132,12 @@ def run_level(ctx, ss):
                     if bad: ctx.violation(f'{name}: mixing pool infected non-susceptible agents {bad[:3]}', key)
                     if new and pc['src'] is not None and not any(st['inf'][int(u)] and st['rel_trans'][int(u)] > 0 for u in pc['src']):
                         ctx.violation(f'{name}: mixing pool produced infections although no source-group member is infectious', key)
-                    # model: pool probabilities
                     ctx.dist('mixing-pool calls')
+                    if np.ndim(r['p']) and pc['src'] is not None and len(r['dst']):
+                        pool_terms.append('(' + ', '.join([rp.cells_bool(st['inf']), rp.cells_bool(st['sus']), rp.cells_f(st['rel_trans']), rp.cells_f(st['rel_sus']),
+                                          rp.cells_f(np.nan_to_num(pc['contacts'])), qlit(pc['beta']), rp.nats(pc['src']), rp.nats(r['dst']),
+                                          '[' + '; '.join(qlit(float(x)) for x in r['p']) + ']']) + ')')
+                        pool_meta.append(key)
             if probe.calls: ctx.sample(dict(kind='recorded infect() call', config=name, seed=seed, ti=probe.calls[-1]['ti'], n_edges=[len(e['p1']) for e in probe.calls[-1]['nets']],
                                             new_cases=[int(x) for x in probe.calls[-1]['out'][0]][:10]))
     step = max(1, len(cases) // ctx.n(24, 400))
@@ -135,6 +146,13 @@ def run_level(ctx, ss):
     bad = ctx.coq_mismatches('infect', IMPORTS, rp.INFECT_TYPE, [cases[i] for i in sub], rp.INFECT_OK, shard=2)
     for j in bad[:3]:
         ctx.broke('correspondence', f'Infection.infect() call {metas[sub[j]]}: the model replay (same state, edges, betas, random numbers) gives different new cases')
+    okdef = '''Fixpoint qs_close (a b : list Q) : bool := match a, b with [], [] => true | x :: a', y :: b' => andb (Qclose (1 # 100000) x y) (qs_close a' b') | _, _ => false end.
+Definition ok (c : list cell * list cell * list cell * list cell * list cell * Q * list nat * list nat * list Q) : bool :=
+  let '(inf, sus, rt, rs, con, beta, src, dst, p) := c in qs_close (pool_probs inf sus rt rs con beta src dst) p.'''
+    pool_sub = pool_terms[:ctx.n(12, 200)]
+    bad = ctx.coq_mismatches('pool', IMPORTS, 'list cell * list cell * list cell * list cell * list cell * Q * list nat * list nat * list Q', pool_sub, okdef, shard=4)
+    for j in bad[:3]:
+        ctx.broke('correspondence', f'MixingPool.step {pool_meta[j]}: acquisition probabilities differ from beta * mean(infectious*rel_trans over src) * contacts * susceptible * rel_sus')
 
 
 def beta_monotone(ctx, ss):
